@@ -55,7 +55,7 @@ DOCUMENTED = {101, 102, lib.ERR["struct.error"], lib.ERR["TypeError"], lib.ERR["
               lib.ERR["IndexError"], lib.ERR["RecursionError"], lib.ERR["AttributeError"], lib.ERR["KeyError"]}
 PY_EXACT_FRAMES = 1400     # below this many frames the Python recursion limit binds before CPython 3.12's C-recursion limit
 HS_WALL_LIMIT = 3.0        # seconds per handshake-receiver input (a datagram-sized input decodes in microseconds)
-WALL_LIMIT = 20.0          # seconds per input before the watchdog calls it a hang
+WALL_LIMIT = 8.0          # seconds per input before the watchdog calls it a hang
 
 
 class Hang(BaseException):
@@ -414,7 +414,11 @@ def _run(run):
     maxima = {"time_per_byte": 0.0, "time_abs": 0.0}
     orc_seen = 0
     with SL.KeyOracle() as ko:
+        n_hangs = 0
         for fam, frames, data in cases:
+            if n_hangs >= 3:
+                run.notes.append("stopped after 3 inputs on which the decoder did not terminate")
+                break
             ko.table.clear()
             signal.setitimer(signal.ITIMER_REAL, WALL_LIMIT)
             t0 = time.perf_counter()
@@ -426,6 +430,7 @@ def _run(run):
                 impl.append(None)
                 model_args.append([regw, [], frames, data])
                 meta.append(None)
+                n_hangs += 1
                 continue
             finally:
                 signal.setitimer(signal.ITIMER_REAL, 0)
